@@ -66,6 +66,13 @@ DefaultExtras == {
     <<97, 46, 98>>,
     <<97, 32, 98, 34, 99>>}
 
+\* every byte value alone and in first, middle and last position of a three-byte name (the class
+\* representatives of Alphabet stand for their classes only as far as the coder under test draws the
+\* class borders where LLVM does; an off-by-one at a border -- 0x60 next to a, 0x7B next to z, 0x2F and
+\* 0x3A around the digits, 0x7E / 0x7F, 0x1F / 0x20 -- moves a byte that is no representative).
+\* ExtraStrings of LiteralsNameBytes.cfg; NUL is filtered by Permitted except for kind "string".
+EveryBytePositions == UNION {{<<b>>, <<b, 97, 97>>, <<97, b, 97>>, <<97, 97, b>>} : b \in 0..255}
+
 VARIABLES kind, s, t, stage
 vars == <<kind, s, t, stage>>
 
